@@ -6,7 +6,7 @@ import sympy as sp
 
 from ..spec import Checker, FR, obj_summary
 from ..sigmodel import make_signal, N, NCHAN
-from ..values import Num, StrV, NONE, ExtV, ObjV, TupleV, DictV, NoneV
+from ..values import Num, StrV, NONE, ExtV, ObjV, TupleV, DictV, NoneV, BoolV
 from ..symeval import Raised
 from ..values import Unsupported
 from ..model import norm
@@ -145,6 +145,18 @@ def check(run, prog):
             ok = isinstance(r, Num) and r.expr == dz.expr and (dt is None or (isinstance(r.dtype, ExtV) and r.dtype.dotted == "numpy." + dt))
             ck.same("R3", fa.where, f"np.asarray(z{'' if dt is None else ', dtype=' + dt})", "yields the signal's data (converted to the requested dtype)",
                     ok, found=f"{r!r} dtype={getattr(r, 'dtype', None)!r}", nontrivial=True)
+    # the copy argument of the protocol: NumPy 2 calls __array__(copy=True) for np.array(z) / np.copy(z) and trusts the result to be
+    # a fresh array; handing back the signal's own buffer makes later in-place operations on the signal show through
+    for cp, want_fresh in ((BoolV(True), True), (NONE, False)):
+        ev = ck.evaluator()
+        lab = f"z.__array__(copy={'True' if want_fresh else 'None'})"
+        r = ck.attempt("R3", fa.where, lab, "evaluates", lambda: ev.call(fa, [], {"copy": cp}, self_val=z), ev=ev)
+        if r is not None and isinstance(r, Num):
+            if want_fresh:
+                ck.same("R3", fa.where, lab, "returns a new array, never the signal's own buffer", r is not z.attrs["_data"] and r.expr == dz.expr,
+                        found="the signal's own data object" if r is z.attrs["_data"] else repr(r)[:80], nontrivial=True)
+            else:
+                ck.same("R3", fa.where, lab, "yields the signal's data", r.expr == dz.expr, found=repr(r)[:80])
     fl = prog.func("Signal.__len__")
     ev = ck.evaluator()
     r = ck.attempt("R3", fl.where, "len(z)", "evaluates", lambda: ev.call(fl, [], {}, self_val=z), ev=ev)
